@@ -643,6 +643,14 @@ class TextXVisitor(RRELVisitor):
                         attr.ref = True
                         attr.is_base_type = False
 
+                    rule_name = getattr(attr, "match_rule_name", None)
+                    if rule_name is not None and rule_name in metamodel:
+                        # The rule that matches the reference text is looked
+                        # up again at model time (RREL: its split string),
+                        # from the main grammar's namespace: keep the
+                        # qualified name of the rule meant by this grammar.
+                        attr.match_rule_name = metamodel[rule_name]._tx_fqn
+
                     if grammar_parser.debug:
                         grammar_parser.dprint(
                             f"Resolved attribute {cls.__name__}:{attr.name}"
